@@ -54,6 +54,10 @@ pub struct Cfg {
     pub boundary: bool,
     /// op weights: provide, withdraw, swap, collect, setfees, donate, roundtrip, depwd, router
     pub weights: [u32; 9],
+    /// identifier collision: the native asset of the pair under test carries, as its denom, the address of
+    /// the pair's cw20 asset (only when the pair has one asset of each kind)
+    #[serde(default)]
+    pub alias_denom: bool,
 }
 
 #[derive(Serialize, Deserialize, Clone, Debug, PartialEq)]
@@ -88,6 +92,9 @@ pub enum Op {
     /// the operator re-points the pool's fee collector address (second = to COLLECTOR2, else back to COLLECTOR)
     SetCollector {
         second: bool,
+        /// alias: the pool itself is named as its fee collector
+        #[serde(default)]
+        to_pool: bool,
     },
     Donate {
         side: usize,
@@ -513,17 +520,30 @@ impl Scenario for Pool2 {
             }
             n
         };
+        // identifier collision (a native denom spelt like the cw20's address): only in pools that charge no
+        // protocol or burn fee and whose fees never change, because with such a fee the unchanged code itself books
+        // the fee of one asset under both (its ledgers are keyed by the bare id string); see
+        // observations/alias-denom-*.json and DESIGN 11.4 (N12)
+        let alias_denom = rng.chance(1, 8) && kinds[0] != kinds[1];
+        let mut fees = gen_fees(rng);
+        let mut weights = weights;
+        if alias_denom {
+            fees[0] = "0".to_string();
+            fees[2] = "0".to_string();
+            weights[4] = 0;
+        }
         Cfg {
             kinds,
             decimals,
             ptype,
-            fees: gen_fees(rng),
+            fees,
             user_funds,
             n_users: rng.range(3, 5) as usize,
             max_steps,
             faults: rng.chance(1, 3),
             boundary,
             weights,
+            alias_denom,
         }
     }
 
@@ -532,7 +552,19 @@ impl Scenario for Pool2 {
     }
 
     fn build(cfg: &Cfg, _ctx: &mut Ctx) -> Self {
-        let denoms = ["uaaa", "ubbb", "uccc"];
+        let mut denoms_s = ["uaaa".to_string(), "ubbb".to_string(), "uccc".to_string()];
+        let mut alias: Option<(usize, usize)> = None;
+        if cfg.alias_denom {
+            let nat = (0..2).find(|i| cfg.kinds[*i] == Kind::Native);
+            let tok = (0..2).find(|i| cfg.kinds[*i] == Kind::Cw20);
+            if let (Some(i), Some(j)) = (nat, tok) {
+                // the factory is contract0; the tokens follow in the order of their index
+                let k = (0..j).filter(|x| cfg.kinds[*x] == Kind::Cw20).count();
+                denoms_s[i] = format!("contract{}", 1 + k);
+                alias = Some((i, j));
+            }
+        }
+        let denoms = [denoms_s[0].as_str(), denoms_s[1].as_str(), denoms_s[2].as_str()];
         let n = cfg.n_users;
         // genesis native balances
         let mut bals: Vec<(&str, Vec<Coin>)> = vec![];
@@ -599,6 +631,10 @@ impl Scenario for Pool2 {
             }
         }
         let assets: [AssetInfo; 3] = [assets[0].clone(), assets[1].clone(), assets[2].clone()];
+        if let Some((i, j)) = alias {
+            assert_eq!(asset_id(&assets[i]), asset_id(&assets[j]), "harness: the aliased denom must equal the token address");
+            _ctx.probe("native_denom_equals_cw20_address");
+        }
         let router = must_instantiate(
             &mut app,
             router_code,
